@@ -28,6 +28,8 @@ pub struct RunResult {
     pub counters: BTreeMap<String, u64>,
     /// panic messages seen as outcomes (step, message) - used by C18's I18.2
     pub panics: Vec<(usize, String)>,
+    /// when the failing step came out of a macro operation: the concrete single operation
+    pub concrete_op: Option<serde_json::Value>,
 }
 
 impl RunResult {
